@@ -14,6 +14,7 @@ import ModVerif.Proofs.EditSpecCmp
 import ModVerif.Model.Modfile.EditAbs
 import ModVerif.Proofs.EditModel
 import ModVerif.Proofs.EditRefineExact
+import ModVerif.Proofs.EditRefineSorted
 namespace ModVerif.Props.C16
 open ModVerif ModVerif.EditSpec ModVerif.Modfile
 
@@ -207,6 +208,27 @@ theorem blocks_sorted_partial (sem work : Bool) (stmts : List Expr) (b : LineBlo
   refine ⟨hsw, ?_, b0, hb0, ?_⟩
   · rw [hlines, ← htok]; exact (Edit.stableSort_sorted hsw _).1
   · rw [hlines, ← htok]; exact (Edit.stableSort_sorted hsw _).2
+
+/-- **blocks_sorted (partial 2): exclude blocks under the semantic order too.**  On a file satisfying the tree
+    invariant `Edit.Inv` (Props/C15: it holds for the empty file and is preserved by every go.mod operation but the two
+    bulk requirement setters) every line of an exclude block has exactly two tokens or is removed; on those
+    `lineExcludeLess` is a strict weak order, so after `File.SortBlocks` EVERY block is sorted by the comparator the code
+    selects for it (`Edit.semOf` = the go-version test).  Missing for the full statement: the invariant for the state
+    in which SetRequire / SetRequireSeparateIndirect call SortBlocks (lean/PENDING.md). -/
+theorem blocks_sorted_partial2 (e : Edit.EFile) (hi : Edit.Inv e) (b : LineBlock)
+    (hb : Expr.lineBlock b ∈ (Edit.sortBlocks e).f.syn.stmts) :
+    Sorted (Edit.onToken (Edit.lessFor (Edit.semOf e.f) false b.token)) b.lines :=
+  Edit.sortBlocks_blocks_sorted e hi b hb
+
+/-- non-vacuity of `blocks_sorted_partial2`: from the empty file (`Props.C15.Inv_empty`) a session that builds an exclude
+    block under `go 1.21`; SortBlocks puts it into the semantic order (`v1.9.0` before `v1.10.0`) -/
+example :
+    (match Edit.runOps Edit.applyMod (Edit.load {})
+        [.addGo (B "1.21"), .addExclude (B "a") (B "v1.10.0"), .addExclude (B "a") (B "v1.9.0"), .addExclude (B "b") (B "v1.0.0"),
+         .sortBlocks, .cleanup] [] 0 with
+     | .done e res => res.all id &&
+         Edit.blocksOf e.f.syn == [([B "exclude"], [[B "a", B "v1.9.0"], [B "a", B "v1.10.0"]])]
+     | _ => false) = true := by decide +kernel
 
 /-- Recorded finding G3 (known_findings.json): with a pre-release go version ≥ 1.21 (`go 1.21rc1`) SortBlocks
     orders an exclude block lexically — `v1.10.0` before `v1.9.0` — which is not the documented
